@@ -379,19 +379,22 @@ correspondence run.
 Proved below for all histories made of the operations of `OpSup`: construction from literals,
 copy construction, `v = w`, `v = <any nested element of any variable, including of v itself>`
 (`get`, any path), swap, and `mut v path leaf` for *every path* (any depth) with the leaves
-assignment (from a variable or a literal), clear, the four mutable accessors, scalar typed
-assignment, list/array append and prepend of variables or literals.  The values may be nested
-to any depth and share blocks in any way.  The ghost map `g` ties every block to a value by a
-local equation; reference count = handles in variables + handles stored in payloads + pending
-handles of the running operation (DeepInv.lean); `release` terminates within a fuel above the
-number of live blocks (DeepRelease.lean); a nested walk leaves its uniquely owned parent
-block untouched (DeepPriv.lean) and refines the nested value update (DeepWalk.lean).
+assignment (from a variable or a literal), clear, the four mutable accessors, typed assignment
+of a scalar / a String / a temporary List or Array built from variables and literals, list
+and array append, prepend and remove, map insert (new key or overwrite) and remove, string
+append.  The values may be nested to any depth and share blocks in any way.  The ghost map `g`
+ties every block to a value by a local equation; reference count = handles in variables +
+handles stored in payloads + pending handles of the running operation (DeepInv.lean);
+`release` terminates within a fuel above the number of live blocks (DeepRelease.lean); a
+nested walk leaves its uniquely owned parent block untouched (DeepPriv.lean) and refines the
+nested value update (DeepWalk.lean).
 
-OPEN: deep_refines  — the same statement without the hypothesis `∀ op ∈ ops, OpSup op`,
-  i.e. additionally for the leaves `lrem/arem/mput/mrem/sapp`, the typed assignment of a
-  String and the typed assignment / construction from a temporary List/Array/HashMap.
-  These operations are covered by `refines` on the variable-level model and by the
-  correspondence run (values and reference counts of every block).                              -/
+OPEN: deep_refines  — the same statement without the hypothesis `∀ op ∈ ops, OpSup op`, i.e.
+  additionally for: typed assignment of a temporary HashMap; typed assignment of a temporary
+  List/Array that contains the destination variable itself (allowed on the variable itself);
+  construction (`new`) from a temporary container.  These operations are covered by `refines`
+  on the variable-level model and by the correspondence run (values and reference counts of
+  every block).                                                                                 -/
 
 /-- For every history of the operations of `OpSup` the deep model never faults, its abstract
     state is the specification store, and what it reads back from the heap (`readCell`, any fuel
@@ -462,6 +465,10 @@ def sampleDeepOps : List Op :=
     .mut 3 [] (.lpre (.lit (.int 7))),
     .mut 2 [.ar 0, .li 0] (.touch 8),          -- nested accessor: clone of the shared list, then of the string element
     .mut 2 [.ar 0] (.lapp (.var 3)),
+    .mut 4 [] (.mput [107] (.var 2)),
+    .mut 4 [.mk [107], .ar 0] (.set (.list [.var 0, .lit (.str [98]), .var 3])),
+    .mut 4 [.mk [107], .ar 0] (.lrem 0),
+    .mut 4 [] (.mput [107] (.lit (.bool true))),   -- overwrite: the whole nested structure is destroyed
     .mut 1 [] .clear,
     .get 2 2 [.ar 0, .li 1],
     .swap 0 3 ]
@@ -469,8 +476,8 @@ def sampleDeepOps : List Op :=
 example : ∀ op ∈ sampleDeepOps, Deep.OpSup op := by
   intro op hop
   simp [sampleDeepOps] at hop
-  rcases hop with rfl | rfl | rfl | rfl | rfl | rfl | rfl | rfl | rfl | rfl | rfl <;>
-    simp [Deep.OpSup, Deep.LeafSupS, Deep.SrcLit, Deep.LitOk]
+  rcases hop with rfl | rfl | rfl | rfl | rfl | rfl | rfl | rfl | rfl | rfl | rfl | rfl | rfl | rfl | rfl <;>
+    simp [Deep.OpSup, Deep.LeafSupS, Deep.SrcLit, Deep.LitOk, Deep.setsSeq, LeafS.vars, ValS.vars, Src.vars]
 
 example : specRun ieee Store.init sampleDeepOps 0 = .list [.int 7, .str [97], .str [97]] ∧
     specRun ieee Store.init sampleDeepOps 2 = .str [97] := by
